@@ -42,10 +42,10 @@ RAW_KERNEL = ('#include "%(proj)s/a.h"\n#include "%(proj)s/b.h"\n'
               "  for (int i = 0; i < n; ++i) out[i] = i * MA + MB * 100 + MC * 10000;\n}\n")
 
 
-def render(body, inc_c):
+def render(body, inc_c, angle=False):
     s = ""
     if inc_c:
-        s += '#include "c.h"\n'
+        s += '#include <c.h>\n' if angle else '#include "c.h"\n'
     s += "// body %d\n" % body
     for (m, v) in BODIES[body]:
         s += "#ifndef %s\n#define %s %d\n#endif\n" % (m, m, v)
@@ -94,7 +94,8 @@ def gen(seed, index):
         if ops[-1][0] != "build" and r.random() < 0.6:
             ops.append(["build", r.choice(["file", "file", "string"])])
     ops.append(["build", "file"])
-    return {"seed": seed, "mode": r.choice(["Serial", "Serial", "OpenMP"]), "init": state, "ops": ops, "raw": raw}
+    return {"seed": seed, "mode": r.choice(["Serial", "Serial", "OpenMP"]), "init": state, "ops": ops, "raw": raw,
+            "angle": 0 if raw else r.choice([0, 0, 0, 1, 2])}
 
 
 def job_spec(kind, sb, raw):
@@ -112,13 +113,15 @@ def execute(scn, sb):
     sb.reset()
     seed, mode = scn["seed"], scn["mode"]
     state = {h: list(v) for h, v in scn["init"].items()}
+    angle = scn.get("angle", 0)
     history = [json.dumps(state, sort_keys=True)]
 
     def flush():
         for h in HEADERS:
-            sb.write_proj(h, render(state[h][0], state[h][1]))
+            sb.write_proj(h, render(state[h][0], state[h][1], angle=(angle == 2)))
     flush()
-    sb.write_proj("k.okl", FILE_KERNEL)
+    # angle 1: the kernel pulls b.h in with <...> through okl/include_paths; angle 2: a.h/b.h pull c.h in with <...>
+    sb.write_proj("k.okl", FILE_KERNEL.replace('#include "b.h"', '#include <b.h>') if angle == 1 else FILE_KERNEL)
     steps = 0
     clock_off = 0
     violations = []
@@ -153,6 +156,8 @@ def execute(scn, sb):
         if len(set(state[h][0] for h in HEADERS)) < 3:
             probes["equal_contents_states"] += 1
         spec = job_spec(op[1], sb, scn.get("raw"))
+        if angle and not scn.get("raw"):
+            spec["props"]["okl"] = {"include_paths": [sb.proj]}
         g = ps.run_group(sb, seed, [ps.VProcSpec({"mode": mode, "jobs": [spec]})], strategy=("rtb", 0, 1),
                          clock0=max(0, steps * 10 ** 6 + clock_off + 10 ** 15), maxsteps=MAXSTEPS, timeout=300)
         steps += g.gsteps
@@ -207,7 +212,8 @@ def signature(scn, out):
         # whatever the edit was; one finding, not one per edit kind
         return "%s|stale-output|okl=off" % PROP
     kinds = sorted(set(op[0] for op in scn["ops"] if op[0] != "build"))
-    return "%s|%s|%s|okl=%s|edits=%s" % (PROP, v[0], msg, "off" if scn.get("raw") else "on", "+".join(kinds))
+    return "%s|%s|%s|okl=%s|edits=%s%s" % (PROP, v[0], msg, "off" if scn.get("raw") else "on", "+".join(kinds),
+                                           "|angle-include" if scn.get("angle") else "")
 
 
 def minimise(ex, scn, out, cls):
